@@ -11,6 +11,7 @@ import (
 	"math/rand"
 
 	"github.com/hashicorp/nodeenrollment"
+	"github.com/hashicorp/nodeenrollment/registration"
 	nodetls "github.com/hashicorp/nodeenrollment/tls"
 	"github.com/hashicorp/nodeenrollment/types"
 	"google.golang.org/protobuf/proto"
@@ -37,6 +38,7 @@ type gcCase struct {
 	Wrap       bool   `json:"storage_wrapper"`
 	SkipLocal  bool   `json:"skip_verification_by_local_caller"`
 	EmptyNonce bool   `json:"empty_nonce"`
+	PrevKey    bool   `json:"record0_carries_a_previous_certificate_key,omitempty"` // record 0 was created by a rotation and names its predecessor's key, whose own record is gone; signer code -5 = that old key
 	PkixBy     *int   `json:"request_key_of,omitempty"` // signer code whose key the request names as certificate key (default: the nonce signer's)
 }
 
@@ -73,7 +75,37 @@ func runGCCase(c *engine.Ctx, gc gcCase) {
 	defer s.Close()
 	// records under node ID "N": enrolled through the library
 	var recs []*world.Node
+	var prevKeys *world.Keys
 	for i := 0; i < gc.Records; i++ {
+		if i == 0 && gc.PrevKey {
+			// the node behind record 0 rotated its credentials: the new request names the old certificate key,
+			// the old key's record has been removed since
+			old, err := world.Enroll(s, world.FlowAuthorize, false, nil, nil, nil)
+			if err != nil {
+				r.Broken("gencerts enroll: " + err.Error())
+				return
+			}
+			nn := world.MustNode(false, "")
+			nn.Creds.PreviousCertificatePublicKeyPkix = old.Node.K.Pkix
+			req, err := nn.FetchRequest()
+			if err != nil {
+				r.Broken("gencerts request: " + err.Error())
+				return
+			}
+			if _, err := registration.AuthorizeNode(s.Ctx, s.Store, req, s.Opts()...); err != nil {
+				r.Broken("gencerts authorize: " + err.Error())
+				return
+			}
+			if ni, err := s.LoadNode(nn.K.KeyID); err != nil || len(ni.PreviousCertificatePublicKeyPkix) == 0 {
+				r.Broken("gencerts: record does not carry the previous certificate key")
+				return
+			}
+			_ = s.RemoveNode(old.Node.K.KeyID)
+			prevKeys = old.Node.K
+			recs = append(recs, nn)
+			r.Count("records_carrying_a_previous_certificate_key", 1)
+			continue
+		}
 		er, err := world.Enroll(s, world.FlowAuthorize, false, nil, nil, nil)
 		if err != nil {
 			r.Broken("gencerts enroll: " + err.Error())
@@ -103,6 +135,8 @@ func runGCCase(c *engine.Ctx, gc gcCase) {
 			return other.Node.K.Priv
 		case code == -2:
 			return unreg.Priv
+		case code == -5 && prevKeys != nil:
+			return prevKeys.Priv
 		}
 		return nil
 	}
@@ -128,6 +162,8 @@ func runGCCase(c *engine.Ctx, gc gcCase) {
 	switch {
 	case gc.NonceBy >= 0 && gc.NonceBy < len(recs):
 		req.CertificatePublicKeyPkix = recs[gc.NonceBy].K.Pkix
+	case gc.NonceBy == -5 && len(recs) > 0:
+		req.CertificatePublicKeyPkix = recs[0].K.Pkix // the record that names the old key as its predecessor
 	case gc.NonceBy == -1:
 		req.CertificatePublicKeyPkix = other.Node.K.Pkix
 	case len(recs) > 0 && gc.Path == "keyid":
@@ -302,6 +338,17 @@ func runGenCerts(c *engine.Ctx) engine.Result {
 			}
 		}
 	}
+	// signatures by a key that is only named as some record's predecessor (its own record is gone)
+	for _, path := range []string{"nodeid", "keyid"} {
+		for m := 1; m <= 2; m++ {
+			for _, ord := range permutations(m) {
+				cases = append(cases, gcCase{Path: path, Records: m, Order: ord, NonceBy: -5, PrevKey: true})
+				cases = append(cases, gcCase{Path: path, Records: m, Order: ord, NonceBy: -5, State: true, StateBy: -5, PrevKey: true})
+				cases = append(cases, gcCase{Path: path, Records: m, Order: ord, NonceBy: 0, State: true, StateBy: -5, PrevKey: true})
+				cases = append(cases, gcCase{Path: path, Records: m, Order: ord, NonceBy: 0, PrevKey: true}) // control: the new key still works
+			}
+		}
+	}
 	// zero records under the node id
 	for _, nb := range []int{-1, -2, -3, -4} {
 		cases = append(cases, gcCase{Path: "nodeid", Records: 0, Order: []int{}, NonceBy: nb})
@@ -359,6 +406,7 @@ func runGenCerts(c *engine.Ctx) engine.Result {
 	r.Require("verifying_record_position_first", 5)
 	r.Require("verifying_record_position_middle", 5)
 	r.Require("verifying_record_position_last", 5)
+	r.Require("records_carrying_a_previous_certificate_key", 8)
 	res.Exhaustive = false
 	_ = rand.Int
 	return res
